@@ -8,7 +8,8 @@ from sim.steps import LineBudget, BudgetExceeded
 ID = "C17"
 CASES = {"quick": 450, "thorough": 4500}
 RULE = ("seeded reduced-form indexed grammars (<=4 non-terminals, <=2 indices, <=8 rules; several consumption "
-        "rules for one (index, non-terminal); recursion through the stack) x ALL nine optim values x a seeded "
+        "rules for one (index, non-terminal); recursion through the stack; end rules on epsilon; start variable S or "
+        "another non-terminal) x ALL nine optim values x a seeded "
         "sample of rule-list permutations (12 quick / 60 thorough; all when <=4 rules) with `random` seeded x "
         "PYTHONHASHSEED; verdict of is_empty / bool / second call / after remove_useless_rules against the exact "
         "table fixpoint; intersection with a seeded automaton against the reference product; non-trivial = "
